@@ -316,6 +316,7 @@ class Hooks:
         self.reach = set()
         self.fired = None
         self.tool = None
+        self.variant = {}            # extra keyword arguments of the API call (driver variants)
 
     def key_at(self, offset):
         p = self.pos[offset // 2]
@@ -384,9 +385,10 @@ def _cleanup_timers():
     return False
 
 
-def run_api(driver, fn, mode, chosen=None, progress_type="bar"):
+def run_api(driver, fn, mode, chosen=None, progress_type="bar", variant=None):
     """-> dict(exception, timers_alive=[...], fired, reach)"""
     hooks = Hooks(fn.__code__)
+    hooks.variant = dict(variant or {})
     hooks.mode = mode
     hooks.chosen = chosen
     out = io.StringIO()
@@ -431,7 +433,8 @@ def drv_compute_dynamics(hooks, ptype):
     import oqupy as oq
     ham = hooks.user(lambda t: 0.5 * (1.0 + t) * oq.operators.sigma("x"), "hamiltonian")
     system = oq.TimeDependentSystem(ham)
-    oq.compute_dynamics(system, initial_state=oq.operators.spin_dm("z+"), dt=0.2, num_steps=4, progress_type=ptype)
+    oq.compute_dynamics(system, initial_state=oq.operators.spin_dm("z+"), dt=0.2, num_steps=4, progress_type=ptype,
+                        **hooks.variant)
 
 
 def drv_compute_dynamics_with_field(hooks, ptype):
@@ -442,7 +445,7 @@ def drv_compute_dynamics_with_field(hooks, ptype):
     eom = hooks.user(lambda t, states, field: -1j * field - 0.1j * np.matmul(oq.operators.sigma("y"), states[0]).trace().real, "field_eom")
     mfs = oq.MeanFieldSystem([system], eom)
     oq.compute_dynamics_with_field(mfs, 1.0 + 1.0j, initial_state_list=[oq.operators.spin_dm("z+")], dt=0.2, num_steps=4,
-                                   progress_type=ptype)
+                                   progress_type=ptype, **hooks.variant)
 
 
 def drv_compute_gradient_and_dynamics(hooks, ptype):
@@ -458,7 +461,8 @@ def drv_compute_gradient_and_dynamics(hooks, ptype):
     tgt = oq.operators.spin_dm("x+").T
     target = hooks.user(lambda state: tgt, "target_derivative")
     compute_gradient_and_dynamics(system=system, initial_state=oq.operators.spin_dm("x-"), target_derivative=target,
-                                  process_tensors=[pt], parameters=np.ones((2 * num_steps, 1)), progress_type=ptype)
+                                  process_tensors=[pt], parameters=np.ones((2 * num_steps, 1)), progress_type=ptype,
+                                  **hooks.variant)
 
 
 def drv_chain_rule(hooks, ptype):
@@ -544,6 +548,12 @@ def drv_correlations_nt(hooks, ptype):
                             ops_order=["left", "left"], dt=0.2, initial_state=oq.operators.spin_dm("z+"), start_time=0.0,
                             progress_type=ptype)
 
+
+VARIANTS = {
+    "oqupy.system_dynamics.compute_dynamics": [{}, {"record_all": False}],
+    "oqupy.system_dynamics.compute_dynamics_with_field": [{}, {"record_all": False}],
+    "oqupy.gradient.compute_gradient_and_dynamics": [{}, {"record_all": False}],
+}
 
 DRIVERS = {
     "oqupy.system_dynamics.compute_dynamics": drv_compute_dynamics,
